@@ -7,6 +7,8 @@ import (
 	"math/rand"
 	"strconv"
 	"strings"
+	"sync"
+	"sync/atomic"
 	"unicode/utf8"
 
 	"github.com/rulego/streamsql"
@@ -619,6 +621,31 @@ func c12Where(cond string, row map[string]interface{}) (string, string) {
 	return a, res()
 }
 
+// c12Concurrent: the same compiled predicates evaluated by four goroutines at once (the row is only read)
+// must decide as the sequential evaluation did.
+func c12Concurrent(cond, twin condition.Condition, row map[string]interface{}, ev, tw bool) bool {
+	var wg sync.WaitGroup
+	var bad int32
+	for g := 0; g < 4; g++ {
+		wg.Add(1)
+		go func() {
+			defer wg.Done()
+			defer func() {
+				if recover() != nil {
+					atomic.StoreInt32(&bad, 1)
+				}
+			}()
+			for i := 0; i < 25; i++ {
+				if cond.Evaluate(row) != ev || twin.Evaluate(row) != tw {
+					atomic.StoreInt32(&bad, 1)
+				}
+			}
+		}()
+	}
+	wg.Wait()
+	return atomic.LoadInt32(&bad) == 0
+}
+
 func c12Opt(r, ok bool) string {
 	if !ok {
 		return "none"
@@ -657,6 +684,7 @@ func (c12) Exec(c Case) [][][]string {
 					gen = btok(g)
 				}
 				obs = append(obs, []string{"ev", btok(ev)}, []string{"gen", gen}, []string{"twin", btok(tw)})
+				obs = append(obs, []string{"conc", btok(c12Concurrent(cond, twin, row, ev, tw))})
 			} else {
 				obs = append(obs, []string{"agree", btok(ev == tw)}, []string{"fastagree", btok(!fok || fr == tw)})
 			}
